@@ -18,6 +18,7 @@ import (
 	"time"
 
 	hclog "github.com/hashicorp/go-hclog"
+	"github.com/hashicorp/go-plugin/runner"
 )
 
 
@@ -81,6 +82,27 @@ type vListener struct {
 	path   string
 	q      chan net.Conn
 	closed bool
+	owner  int // process that listens (0 host, 1 plugin)
+}
+
+// With a custom runner host and plugin may live in different file-system namespaces: a path of the plugin is visible
+// on the host under /host, a path of the host is visible to the plugin under /plug. The runner's address translator
+// (PluginToHost / HostToPlugin) is what maps one to the other.
+var namespaces bool
+
+type vXlate struct{}
+
+func (vXlate) PluginToHost(n, a string) (string, string, error) { return n, "/host" + a, nil }
+func (vXlate) HostToPlugin(n, a string) (string, string, error) { return n, "/plug" + a, nil }
+
+func visiblePath(l *vListener, from int) string {
+	if !namespaces || l.owner == from {
+		return l.path
+	}
+	if from == 0 {
+		return "/host" + l.path
+	}
+	return "/plug" + l.path
 }
 
 func (l *vListener) Accept() (net.Conn, error) { c := <-l.q; return c, nil }
@@ -91,7 +113,7 @@ var listeners []*vListener
 
 //verif:model net.Listen
 func mListen(network, address string) (net.Listener, error) {
-	l := &vListener{path: address, q: make(chan net.Conn, 1)}
+	l := &vListener{path: address, q: make(chan net.Conn, 1), owner: vCurProc()}
 	listeners = append(listeners, l)
 	files[address] = true
 	events = append(events, "listen")
@@ -163,7 +185,7 @@ func mResolveUnix(network, address string) (*net.UnixAddr, error) { return &net.
 //verif:model net.Dial
 func mDial(network, address string) (net.Conn, error) {
 	for _, l := range listeners {
-		if l.path == address && !l.closed {
+		if visiblePath(l, vCurProc()) == address && !l.closed {
 			a, b := &vNetConn{}, &vNetConn{}
 			a.peer, b.peer = b, a
 			l.q <- b
@@ -250,10 +272,16 @@ func harnessC07() {
 	// plugin side: the real server pump
 	ps := newGRPCBrokerServer()
 	go func() { vDaemon(); ps.StartStream(&vBidi{vStreamBase{vCtx{}}, p2h, h2p}) }()
-	hb := newGRPCBroker(hs, nil, UnixSocketConfig{}, nil, nil2())
+	var xl runner.AddrTranslator
+	if vChoice(2) == 1 {
+		vCover("translated-addresses")
+		namespaces = true
+		xl = vXlate{}
+	}
+	hb := newGRPCBroker(hs, nil, UnixSocketConfig{}, xl, nil2())
 	pb := newGRPCBroker(ps, nil, UnixSocketConfig{}, nil, nil2())
 	go func() { vDaemon(); hb.Run() }()
-	go func() { vDaemon(); pb.Run() }()
+	go func() { vDaemon(); vSetProc(1); pb.Run() }()
 
 	a, b := vNondetU32("a"), vNondetU32("b")
 	vAssume(a != b)
@@ -270,17 +298,19 @@ func harnessC07() {
 	var cA, cB *grpc.ClientConn
 	var e1, e2, e3, e4 error
 	done := make(chan struct{}, 4)
-	go func() { vSleepUntil(tAcc); lnA, e1 = pb.Accept(a); done <- struct{}{} }()
+	go func() { vSetProc(1); vSleepUntil(tAcc); lnA, e1 = pb.Accept(a); done <- struct{}{} }()
 	go func() { vSleepUntil(tAcc); lnB, e2 = hb.Accept(b); done <- struct{}{} }()
 	go func() { vSleepUntil(tDial); cA, e3 = hb.Dial(a); done <- struct{}{} }()
-	go func() { vSleepUntil(tDial); cB, e4 = pb.Dial(b); done <- struct{}{} }()
+	go func() { vSetProc(1); vSleepUntil(tDial); cB, e4 = pb.Dial(b); done <- struct{}{} }()
 	for i := 0; i < 4; i++ {
 		<-done
 	}
 	vAssert(e1 == nil && e2 == nil && e3 == nil && e4 == nil, "C07: accept and dial within the pending window succeed in both directions")
 	// first use of each dialled connection: gRPC invokes the dialer; the listener that receives it must be the ID's
 	na, errA := connG[cA].dialer("", 0)
+	vSetProc(1)
 	nb, errB := connG[cB].dialer("", 0)
+	vSetProc(0)
 	vAssert(errA == nil && errB == nil, "C07: the first use of the dialled connection reaches a live listener")
 	gotA, _ := lnA.Accept()
 	gotB, _ := lnB.Accept()
